@@ -33,7 +33,10 @@ Record pobs := mkPObs {
   o_ndl : Z;                    (* goroutines in connect *)
   o_ngoat : Z;                  (* goroutines with any frame of package goat *)
   o_drops : Z;                  (* increments of the proxy.drop counter during this step *)
-  o_crash : bool }.             (* a panic was caught *)
+  o_crash : bool;               (* a panic was caught *)
+  o_wfail : list (Z * env * bool) }.
+                                (* (rig record, envelope, reached): conn.Write calls of this step that returned an error;
+                                   reached = the transport had handed the envelope to the peer before failing *)
 
 Inductive pxcase :=
 | CProxy (pname : Z) (buf : nat) (icp : Z) (steps : list (list act)) (observed : list pobs)
@@ -242,6 +245,16 @@ Fixpoint assign (names : list Z) (ds : list (nat * Z)) : option (list nat) :=
 Definition znat (n : nat) : Z := Z.of_nat n.
 Definition bcount (f : client -> bool) (s : state) : Z := znat (length (filter f (clients s))).
 
+(* every failed Write call is one EvWFail of the model: per record, in order *)
+Definition wfails_agree (m : list nat) (s : state) (o : pobs) : bool :=
+  forallb (fun p => Nat.ltb (Z.to_nat (fst (fst p))) (length m) && (0 <=? fst (fst p))) (o_wfail o)
+  && forallb (fun r =>
+       match nth_error m r with
+       | Some i => list_eqb env_obs_eqb (wfails i (log s))
+                            (map (fun p => snd (fst p)) (filter (fun p => fst (fst p) =? znat r) (o_wfail o)))
+       | None => false
+       end) (seq 0 (length m)).
+
 Definition outs_agree (m : list nat) (s : state) (o : pobs) : bool :=
   forallb (fun p => Nat.ltb (Z.to_nat (fst p)) (length m) && (0 <=? fst p)) (o_outs o)
   && forallb (fun r =>
@@ -257,7 +270,7 @@ Definition obs_match (m : list nat) (s : state) (o : pobs) : option (list nat) :
   | None => None
   | Some nd =>
       let m' := m ++ nd in
-      if outs_agree m' s o
+      if outs_agree m' s o && wfails_agree m' s o
          && multiset_eqb Z.eqb (map fst (o_disc o))
                          (pick (fun ev => match ev with EvDisc _ n _ => Some n | _ => None end) (log s))
          && lz_eqb (sort_by zleb (o_reg o)) (sort_by zleb (map p_name (filter p_reg (clients s))))
@@ -482,7 +495,10 @@ Definition spec_delivered (pname : Z) (icp : Z -> Z -> option Z) (steps : list (
            && match nth_error rs r with Some ri => Nat.leb (ri_step ri) tw | None => false end
        | None => false
        end end) ws
-  && (let wp := map (fun w => e_pay (snd w)) ws in lz_eqb (dedup Z.eqb wp) wp)
+  && (let wp := map (fun w => e_pay (snd w)) ws
+                ++ flat_map (fun o => Explore.filter_map (fun p : Z * env * bool => if snd p then Some (e_pay (snd (fst p))) else None) (o_wfail o)) observed in
+      (* at most once - counting the hand-overs that reached the peer although their Write returned an error *)
+      lz_eqb (dedup Z.eqb wp) wp)
   && forallb (fun w1 => forallb (fun w2 =>
        match w1, w2 with
        | (i1, (t1, r1, x1)), (i2, (t2, r2, x2)) =>
